@@ -358,4 +358,18 @@ theorem fact_C12_end_blocker_gates :
        ("types.IsPeriodLastBlock(ctx, params.SlashWindow)", "SlashAndResetMissCounters")] ∧
     Generated.oraclePeriodLastBlockExpr = "((uint64)(ctx.BlockHeight())+1)%blocksPerPeriod == 0" := by decide
 
+/-- **A period's pot leaves the schedule exactly when it is paid.** In a vote period in which no validator earned reward weight
+    nothing is paid and the reward schedule — and the module balance — stay as they were: the period's pot is still owed (seed
+    C12-15 had the schedule advance regardless). -/
+theorem C12_period_without_winners_consumes_nothing (perfs : List Perf) (rw : List Reward) (bal : Int)
+    (h : sumInts (perfs.map (·.weight)) = 0) : rewardWinners perfs rw bal = ([], rw, bal) := by
+  unfold rewardWinners
+  simp [h]
+
+/-- … and with winners the schedule is the gathered one: every allocation has lost exactly the period that was paid -/
+theorem C12_period_with_winners_advances_the_schedule (perfs : List Perf) (rw : List Reward) (bal : Int)
+    (h : sumInts (perfs.map (·.weight)) ≠ 0) : (rewardWinners perfs rw bal).2.1 = (gather rw).2 := by
+  unfold rewardWinners
+  simp [h]
+
 end Nibiru.Oracle
